@@ -368,11 +368,12 @@ def write_evidence(prop, tier, seed, results, obligs, controls, n_valid, violati
                         "time_s": round(o["time"], 3), "backends": o["backends"]})
     bounded = [{"contract": c.label, "bound": c.bounded} for c in api.REGISTRY
                if (c.prop == prop or prop in c.also) and c.bounded]
+    n_unbounded = len(obligs) - len(bounded_names)
     ev = {
         "property_id": prop,
         "tier": tier,
         "seed": seed,
-        "level": "proof",
+        "level": "proof" if n_unbounded > 0 else "other",
         "coverage": {
             "obligations": len(obligs) - len(bounded_names),
             "discharged": n_valid,
@@ -401,6 +402,15 @@ def write_evidence(prop, tier, seed, results, obligs, controls, n_valid, violati
         "wall_s": round(wall, 2),
         "violations": len(violations),
     }
+    if n_unbounded == 0:
+        ev["coverage"]["explanation"] = (
+            "every obligation of this property is a BOUNDED stand-in (bounds listed under "
+            "bounded_standin_obligations): symbolic execution of the real functions with all field "
+            "contents symbolic but a bounded number of list elements; decided by the same VC generator "
+            "and solvers, not counted as proved")
+        ev["coverage"]["evaluations"] = sum(o["vcs"] for o in obligs.values())
+        ev["coverage"]["distinct_nontrivial"] = len(bounded_names)
+        ev["coverage"]["rule"] = "one evaluation per VC (path x clause); distinct = named obligations"
     os.makedirs(os.path.join(VERIF, "evidence"), exist_ok=True)
     with open(os.path.join(VERIF, "evidence", prop + ".json"), "w") as f:
         json.dump(ev, f, indent=1, sort_keys=True)
